@@ -14,7 +14,9 @@ LEVEL_TEXT = ("partial: Coq theorems over a small-step interleaving model of bot
               "the limit outside the eviction loop [mem_book_is_exact, mem_cursize_within_limit], and when everything has finished the "
               "book is exactly the messages in the mailboxes [mem_quiescent_accounting, deliveries = distinct Message objects], any schedule of the "
               "memory-store model makes at most (n+1)*15n+2n productive steps and of the file-store model at most (n(1+n(n+1))+8)n "
-              "[mem_step_bound, file_step_bound: every step decreases a measure, no livelock], every "
+              "[mem_step_bound, file_step_bound: every step decreases a measure, no livelock] and, composed with deadlock freedom and "
+              "no-crash, every stopped run can be continued to the state where every operation has returned "
+              "[mem_/file_every_operation_completes], every "
               "non-walk operation commits exactly once, delivered-stays-unless-removed [memory store WITHOUT cap and size limit "
               "only; for every cap and limit: present-stays-unless-removed-or-evicted; file store, which the model has without cap: "
               "file_delivered_stays_unless_removed]; lock discipline at SOURCE level on synchronisation skeletons regenerated from "
